@@ -88,6 +88,13 @@ EVENTS = {
                None], ['B1', 'B2'], 'invalid:invalid definition'),
     '!Punits': (['dtype', 'Pu', [['u:x0', 1], ['u:y0', 1]], 'pu0', None],
                 ['B1', 'B2'], 'invalid:invalid definition'),
+    # a unit without definition in a type with reference unit (no scale)
+    'xnone': (['unit', 'B1', 'xnone', ['none']], ['B1'], 'valid'),
+    # definitions that denote zero
+    '!zero': (['unit', 'B1', 'xz', ['scaled', 'i:0', 'x0']], ['B1'],
+              'invalid:zero scale'),
+    '!zeroterm': (['unit', 'B1', 'xzt', ['term', [['D:0.0', 1], ['x1', 1]]]],
+                  ['x1'], 'invalid:zero scale'),
     # ---- invalid declarations
     '!nmixbad': (['unit', 'N1', 'nmixbad', ['term', [['n1k', 2],
                                                     ['n2k', -1]]]],
